@@ -26,11 +26,45 @@ import (
 // Built with -race by the check, so unsynchronised accesses are reported by the race detector.
 func init() { commands["determ"] = cmdDeterm }
 
+// flagText is what the documentation says FilterFlag.String returns: the names of the named bits that are set, in
+// ascending bit order, then "unknown" if any other bit is set, joined with "|".
+func flagText(f uint32) string {
+	var parts []string
+	if f&1 != 0 {
+		parts = append(parts, "tsync")
+	}
+	if f&2 != 0 {
+		parts = append(parts, "log")
+	}
+	if f&^3 != 0 {
+		parts = append(parts, "unknown")
+	}
+	return strings.Join(parts, "|")
+}
+
+// freshFlags converts flag values nobody has converted before in this process (n distinguishes the callers), several
+// of them with more than one unnamed bit, and checks each against flagText.
+func freshFlags(n uint32) string {
+	var sb strings.Builder
+	for _, f := range []uint32{4 << (n % 20), 12 << (n % 20), (0x1a << (n % 20)) | 1, 0x80000004 | n<<8, 3 | 0x100<<(n%16), 0xffffffff - n} {
+		got := seccomp.FilterFlag(f).String()
+		if got != flagText(f) {
+			fmt.Fprintf(&sb, "TEXT-WRONG:%d:%s;", f, got)
+		}
+	}
+	return sb.String()
+}
+
 func textProbe() string {
 	var sb strings.Builder
 	for f := 0; f < 8; f++ {
 		sb.WriteString(seccomp.FilterFlag(f).String())
 		sb.WriteByte(';')
+	}
+	for _, f := range []uint32{4, 8, 12, 13, 0x1a, 0x80000004} { // single unnamed bits first, then combinations of them
+		if got := seccomp.FilterFlag(f).String(); got != flagText(f) {
+			fmt.Fprintf(&sb, "TEXT-WRONG:%d:%s;", f, got)
+		}
 	}
 	for _, a := range []seccomp.Action{seccomp.ActionAllow, seccomp.ActionErrno, seccomp.ActionKillProcess, seccomp.ActionKillThread,
 		seccomp.ActionLog, seccomp.ActionTrace, seccomp.ActionTrap, 12345} {
@@ -80,6 +114,7 @@ func textProbe() string {
 }
 
 func cmdDeterm() {
+	caseNo := 0
 	w := bufio.NewWriterSize(os.Stdout, 1<<20)
 	defer w.Flush()
 	texts0 := textProbe()
@@ -121,11 +156,14 @@ func cmdDeterm() {
 				results[g] = compile(p)
 			}(g, &cp)
 		}
+		fresh := make([]string, 4)
+		caseNo++
 		for g := 0; g < 4; g++ {
 			wg.Add(1)
 			go func(g int) {
 				defer wg.Done()
 				texts[g] = textProbe()
+				fresh[g] = freshFlags(uint32(caseNo*4 + g))
 			}(g)
 		}
 		wg.Wait()
@@ -134,7 +172,12 @@ func cmdDeterm() {
 				same = false
 			}
 		}
-		tsame := !strings.Contains(texts0, "TEXT-CHANGED-BY-CALLER")
+		tsame := !strings.Contains(texts0, "TEXT-CHANGED-BY-CALLER") && !strings.Contains(texts0, "TEXT-WRONG")
+		for _, t := range fresh {
+			if t != "" {
+				tsame = false
+			}
+		}
 		for _, t := range texts {
 			if t != texts0 {
 				tsame = false
